@@ -24,13 +24,16 @@ PROP = {'gen': [],
                'terminal Render/Screen.v executes the IMPLEMENTATION\'s commands from a blank screen and must display show(S) after every '
                'frame, no protocol error)',
  'level_text': 'Coq theorems over an executable model of TerminalRenderer (new, surface, frame with its three passes, clear) and a '
-               'reference terminal: for every terminal size and every finite history of draws, frames, dropped frames, clear() (also '
-               'between the drawing and the frame: the frame-dropping path), re-created renderers and resizes to arbitrary screens '
-               '(unbounded length) over surfaces with arbitrary narrow/wide characters (wide characters may hide one another), faces, '
+               'reference terminal: for every terminal size and every finite history of draws, frames, dropped frames, clear(), '
+               're-created renderers and resizes to arbitrary screens '
+               '(unbounded length; clear(), a new renderer and a resize reset the surface by API contract, so draw S; clear(); frame() '
+               'must show the blank surface, not S) over surfaces with arbitrary narrow/wide characters (wide characters may hide one another), faces, '
                'images and glyphs (including cells behind wide characters and under images), after every frame the terminal displays '
                'exactly the denotation of the drawn surface = what a naive painter leaves on a blank terminal, and no command is a '
                'protocol error (C01_history, C01_history_final, C01_scratch); after new(clear=true) / clear() the next frame repaints '
-               'every cell on an arbitrary previous screen (C01_forced, C01_clear_then_frame); the render loop of run_render with its '
+               'every cell on an arbitrary previous screen (C01_forced; C01_clear_then_frame: clear(), draw S, frame() shows S); '
+               'the "forced clear" part of the property is carried by the order of run_render (poll; frames_drop; clear(); only then '
+               'the handler draws; frame()) and proved for the render loop with its '
                'output queue and frame dropping, end to end: whatever the tty takes, whatever frames_pending() answers and whichever prefix '
                'of the queue survives a drop, every delivered frame is displayed right (C01_render_loop; TERMINAL_FRAMES_DROP '
                'regenerated from the source), except in the known class DroppedImageErase; a frame that repeats the previous one issues no command, '
@@ -43,9 +46,10 @@ PROP = {'gen': [],
                'EraseChars leaves ferase(pen) = background only, clipped, cursor unmoved; CUP row clamp; images do not alter cells; an '
                'overwritten wide half leaves an Orphan cell that no surface denotes); hand-written model Render/Frame.v validated by '
                'the correspondence run; oracle_ok (space is one column wide, a default blank is an untouched cell, erasable faces erase '
-               'like spaces); nine fix: commits in the crate (incl. three follow-ups after an audit) (marks reset after use, wide-character extent, Option-tracked face/cursor, '
-               'clear() keeps the drawn front buffer, no EraseChars for faces with underline/strike/reverse, hidden wide characters '
-               'do not own the column behind them). Render/Loop.v takes from Props/C16.v (C16_frames, C16_frames_flush_delimited, '
+               'like spaces); nine fix: commits in the crate (incl. three follow-ups after an audit) (marks reset after use / force_repaint flag, wide-character extent, Option-tracked face/cursor, '
+               'run_render drops and clears before the handler draws (clear() itself resets the surface, as documented), '
+               'no EraseChars for faces with underline/strike/reverse, hidden wide characters '
+               'do not own the column behind them and damage it only when their cover was repainted). Render/Loop.v takes from Props/C16.v (C16_frames, C16_frames_flush_delimited, '
                'C16_render_loop_schema) the interface of the output queue: chunks delimited by flush/poll, delivered in order and '
                'whole, frames_drop discards only whole chunks never seen by the tty (modelled: a drop keeps a prefix of the queue). '
                'translate/c01const.py regenerates TERMINAL_FRAMES_DROP and checks the shape of the comparison. No axioms (Print Assumptions: closed for all theorems).',
